@@ -114,11 +114,10 @@ func archivalBookkeepingRule(c *Ctx) {
 				return false
 			}
 			// must-dataflow: ok_out(b) = every path to the end of b passed a set or an edge on which
-			// IsArchived() is known false.
-			okOut := map[*ssa.BasicBlock]bool{}
+			// IsArchived() is known false. Run per return: edges whose test contradicts what is known
+			// at that return (correlated branches) cannot be on a path to it and are left out.
 			contains := map[*ssa.BasicBlock]bool{}
 			for _, b := range fn.Blocks {
-				okOut[b] = true
 				for _, in := range b.Instrs {
 					if isSet(in) {
 						contains[b] = true
@@ -126,7 +125,6 @@ func archivalBookkeepingRule(c *Ctx) {
 				}
 			}
 			entry := fn.Blocks[0]
-			okOut[entry] = contains[entry]
 			edgeOK := func(from, to *ssa.BasicBlock) bool {
 				for _, f := range p.edgeFacts(from, to) {
 					if call, _ := asCall(f.Cond); call != nil && calleeName(call.Common()) == "IsArchived" && !f.Pol {
@@ -135,26 +133,37 @@ func archivalBookkeepingRule(c *Ctx) {
 				}
 				return false
 			}
-			for changed := true; changed; {
-				changed = false
+			solve := func(at []Fact) map[*ssa.BasicBlock]bool {
+				okOut := map[*ssa.BasicBlock]bool{}
 				for _, b := range fn.Blocks {
-					if b == entry {
-						continue
-					}
-					v := contains[b]
-					if !v {
-						v = len(b.Preds) > 0
-						for _, pr := range b.Preds {
-							if !okOut[pr] && !edgeOK(pr, b) {
-								v = false
+					okOut[b] = true
+				}
+				okOut[entry] = contains[entry]
+				for changed := true; changed; {
+					changed = false
+					for _, b := range fn.Blocks {
+						if b == entry {
+							continue
+						}
+						v := contains[b]
+						if !v {
+							v = len(b.Preds) > 0
+							for _, pr := range b.Preds {
+								if p.edgeContradicts(pr, b, at) {
+									continue
+								}
+								if !okOut[pr] && !edgeOK(pr, b) {
+									v = false
+								}
 							}
 						}
-					}
-					if v != okOut[b] {
-						okOut[b] = v
-						changed = true
+						if v != okOut[b] {
+							okOut[b] = v
+							changed = true
+						}
 					}
 				}
+				return okOut
 			}
 			for _, rc := range p.returnCases(fn) {
 				if fn.Recover != nil && rc.Ret.Block() == fn.Recover {
@@ -176,6 +185,7 @@ func archivalBookkeepingRule(c *Ctx) {
 				}
 				o := c.Ob(fn, "archived-bookkeeping-return", rc.Ret, c.rule.Statement)
 				b := rc.Ret.Block()
+				okOut := solve(rc.Facts)
 				ok := okOut[b]
 				if rc.Pred != nil {
 					ok = okOut[rc.Pred] || edgeOK(rc.Pred, b) || contains[b]
